@@ -260,7 +260,8 @@ class MaskCombinator(Generic[R], GenerativeFunction[Mask[R]]):
             final_weight,
             Mask.build(retdiff, check_diff),
             Update(
-                inner_chm.mask(post_check),
+                # the previous values were visible iff the flag was set *before* the edit.
+                inner_chm.mask(pre_check),
             ),
         )
 
